@@ -267,3 +267,46 @@ Definition c02_exact_checkb (app : Z -> Z -> Z -> Z) (progs : Z -> list dop) (t 
                end
              | None => after p =? before p
              end) (grid_cells nl nc).
+
+(* ------------------------------------------------------------------------------------ *)
+(* What a flush may and may not do to the tree and with the damage (oracle clauses that
+   compare the state right before a flush with the state after it)                       *)
+
+(* C01: queued restack requests take effect at the flush IN THE ORDER they were made *)
+Definition restack_spec (reqs : list (hchange * Z)) (t : wtree) : wtree :=
+  fold_left (fun t e => match t_parent_id (snd e) t with
+                        | Some pid => t_upd_kids (apply_hchange (fst e) (snd e)) pid t
+                        | None => t
+                        end) reqs t.
+
+Fixpoint zlist_eqb (a b : list Z) : bool :=
+  match a, b with
+  | [], [] => true
+  | x :: r, y :: r' => (x =? y) && zlist_eqb r r'
+  | _, _ => false
+  end.
+
+Definition c01_restack_checkb (reqs : list (hchange * Z)) (before after : wtree) : bool :=
+  zlist_eqb (sub_ids (restack_spec reqs before)) (sub_ids after).
+
+(* C02: the rectangles handed to the root window are damage: each lies inside the region
+   that was pending when the flush began (checked when no restack is applied by the flush) *)
+Definition rect_cells (r : rect) : list cell :=
+  flat_map (fun y => map (fun x => (y, x)) (zrange (left r) (cols r))) (zrange (top r) (lines r)).
+
+Definition c02_within_pending_checkb (rootid : Z) (pending : list rect) (log : list (Z * rect)) : bool :=
+  forallb (fun e => negb (fst e =? rootid) || forallb (in_any pending) (rect_cells (snd e))) log.
+
+(* C15: a flush (which applies the queued restacks) moves no focus: every window keeps its
+   focused-child link and its focused flag *)
+Definition c15_links_kept_checkb (before after : wtree) : bool :=
+  forallb (fun id => match t_find id before, t_find id after with
+                     | Some a, Some b =>
+                       Bool.eqb (w_focused (t_info a)) (w_focused (t_info b)) &&
+                       match w_fchild (t_info a), w_fchild (t_info b) with
+                       | Some x, Some y => x =? y
+                       | None, None => true
+                       | _, _ => false
+                       end
+                     | _, _ => false
+                     end) (sub_ids after).
